@@ -1,7 +1,7 @@
 # Per-property configuration of the driver.  `variants` are build variants of the check's test
 # package; every variant is built from /repo's current working tree on each invocation.
 PLAIN = {"name": "plain"}
-HOOK_COMMITS = []
+HOOK_COMMITS = ["f739e43"]
 NOT_APPLICABLE = {}
 
 CHECKS = {
@@ -209,5 +209,23 @@ CHECKS = {
         "level_text": "Randomised comparison with a reference model over types x queries x histories; exploration level.",
         "level_note": "The reference projects go-json's own unfiltered output, so only the filtering is judged. reflect.StructOf types take the fallback cache path; each history starts with a cold query cache for its type.",
         "assumptions": ["a root query without fields selects nothing; a sub-query without fields keeps the whole member"],
+    },
+    "C14": {
+        "pkg": "c14",
+        "corpus": {"quick": 3000, "thorough": 12000, "profile": "mixed"},
+        "variants": [{"name": "hooks", "tags": "verif"},
+                     {"name": "hooks-race", "tags": "verif", "race": True, "shards": {"quick": 4, "thorough": 8}},
+                     {"name": "plain", "shards": {"quick": 4, "thorough": 8}}],
+        "mem_gb": 10,
+        "rule": ("the binary is the generated input: cmd/gencorpus writes N named struct types per VERIF_SEED (recursive, mutually recursive in pairs, embedded, with value/pointer receiver marshal methods; "
+                 "plus unnamed composites []T, map[string]*T, *T, [3]T, map[int][]*T over them) into the check's test binary, so every seed gives another linker layout; every shard walks the whole registry in its own "
+                 "shuffled order, twice (cold, warm), interleaving run-time-created types (reflect.SliceOf/MapOf/ArrayOf/PointerTo/StructOf around corpus types, heap descriptors). Per type: zero value and filled values "
+                 "(reflective filler, seed recorded) through Marshal (value and pointer), MarshalIndent and Unmarshal. Oracles: (1) hook (-tags verif): the program returned by CompileToGetCodeSet was compiled for the requested "
+                 "type, and a decoder cache slot never serves two types; (2) output token-equal to encoding/json's and decoded value deeply equal to encoding/json's. Builds: hooks, hooks+race (the mutex cache code), plain. "
+                 "Non-trivial = composite type (struct, or container of one); distinct by (type, derivation)."),
+        "technique": "generated-program testing: a generated type corpus compiled into the binary (one linker layout per seed) x run-time-created types, with cache-identity assertion hooks and an encoding/json differential oracle",
+        "level_text": "Enumeration of every type of a generated binary in shuffled orders, per seed one linker layout; exploration level over layouts.",
+        "level_note": "One linker layout per run (per VERIF_SEED and tier); layouts are sampled, not enumerated. The corpus grammar constructs around the open encoder/decoder findings (see DESIGN.md).",
+        "assumptions": ["encoding/json defines the expected encoding of each type", "hook counters > 0 show the assertions ran (checked by the harness)"],
     },
 }
